@@ -52,6 +52,11 @@ def schema_terms():
         # generated may not depend on the zone the process happens to run in
         S("date", call(_AWARE)), S("datetime", call(_AWARE)),
         ("list", ("elems", (S("date", call(_AWARE)), INT)), ()),
+        # a float interval wider than the float range (its own branch of the generator), an open
+        # repeat whose lower bound is beyond max_repeat, a sum that brings in several new keys
+        S("float", ("min", -1.7e308), ("max", 1.7e308)), rx("[a-c]{40,}"), rx("x+"),
+        ("add", _D3, ("dict", (("n1", False, INT), ("n2", False, S("bool")), ("n3", False, S("str", ln(1))),
+                               ("n4", False, S("int", ("min", 0), ("max", 7))), ("n5", False, INT)), False)),
     ]
 
 
